@@ -26,10 +26,76 @@ def run(ctx, rep):
                      'candidate enumeration by tags, the per-column lookup, the Gaussian fallback and fresh-instance creation. '
                      'Which family actually wins on given data is a runtime value and is not decided.')
     rep.guarded('D1.d1_d3', d1_d3, ctx, rep)
+    rep.guarded('D2.pairing', d2_pairing, ctx, rep)
     rep.guarded('D4.d4', d4, ctx, rep)
     rep.guarded('D5.d5', d5, ctx, rep)
     rep.guarded('D6.d6', d6, ctx, rep)
     rep.guarded('L6.l6', l6, ctx, rep, rule='D7.clone')
+    rep.guarded('D7.fresh', d7_fresh, ctx, rep)
+
+
+def d2_pairing(ctx, rep):
+    """Sequences that are walked in parallel in the selection code are in the same order and of the same length: a list of
+    scores from which the failed candidates were filtered out must not be zipped with the full candidate list."""
+    from ..absint import Frame
+    from ..idioms import private_closure
+    from ..kinds import OrderKind
+    prog = ctx.prog
+    fn = prog.func(SEL)
+    seen = 0
+    for g in private_closure(ctx, fn):
+        okd = OrderKind(ctx)
+        fr = Frame(g, {}, None)
+        for s_ in walk_no_nested(g.node):
+            if isinstance(s_, ast.For):
+                okd.loop_order(s_.iter, fr, s_)
+            elif isinstance(s_, (ast.Assign, ast.Return, ast.Expr)) and getattr(s_, 'value', None) is not None:
+                okd.value(s_.value, fr)
+        for node, f_, msg in okd.mismatches:
+            seen += 1
+            rep.bad('D2.score', f_, node, msg + ': a score is attributed to another candidate than the one it was computed for', construct='parallel sequences')
+        for node, f_, msg in okd.checked:
+            seen += 1
+            rep.ok('D2.score', f_, node, msg, construct='parallel sequences')
+    if not seen:
+        rep.ok('D2.score', fn, fn.node.name, 'no two sequences are walked in parallel in the selection code', construct='parallel sequences')
+
+
+def d7_fresh(ctx, rep):
+    """The object GaussianMultivariate fits for a column is a fresh one on every path: the configured prototype (class,
+    name or instance held in self.distribution) is never fitted itself, or two columns configured with one instance
+    would share one model."""
+    from ..idioms import resolve
+    prog = ctx.prog
+    fn = prog.method(GM, '_fit_column')
+    dp = fn.params[2] if len(fn.params) > 2 else None
+    fits = [c for c in walk_no_nested(fn.node) if isinstance(c, ast.Call) and isinstance(c.func, ast.Attribute) and c.func.attr == 'fit'
+            and isinstance(c.func.value, ast.Name)]
+    if not fits or dp is None:
+        rep.undecided('D7.clone', fn, fn.node.name, 'the fit of the configured distribution was not found in _fit_column', construct='fresh model per column')
+        return
+    var = fits[0].func.value.id
+    defs = [a for a in walk_no_nested(fn.node) if isinstance(a, ast.Assign) and any(isinstance(t, ast.Name) and t.id == var for t in a.targets)
+            and a.lineno < fits[0].lineno]
+    verdicts = []
+    for a in defs:
+        v = a.value
+        if isinstance(v, ast.Call) and (prog.resolve(fn.module, v.func) == 'copulas.utils.get_instance' or (prog.resolve(fn.module, v.func) or '') in prog.classes):
+            verdicts.append(True)
+        elif isinstance(v, ast.Name) and v.id == dp:
+            verdicts.append((False, a))
+        elif isinstance(v, ast.Call) and call_name(v) in ('copy', 'deepcopy'):
+            verdicts.append(True)
+        else:
+            verdicts.append(None)
+    bad = [x for x in verdicts if isinstance(x, tuple)]
+    if bad:
+        rep.bad('D7.clone', fn, bad[0][1], f'on one path the model that is fitted is the configured `{dp}` object itself: every column configured with that '
+                'instance shares (and overwrites) one model, and the user\'s prototype is mutated', construct='fresh model per column')
+    elif verdicts and all(x is True for x in verdicts):
+        rep.ok('D7.clone', fn, defs[0], 'the fitted object is created by get_instance(...) on every path', construct='fresh model per column')
+    else:
+        rep.undecided('D7.clone', fn, fits[0], 'where the fitted object comes from is not derived', construct='fresh model per column')
 
 
 def d1_d3(ctx, rep):
